@@ -282,7 +282,7 @@ def rd_call(mo, f):
     return 'rd_plain::<%s>(m, %s, %s, %s, %s, st)' % (ty, slit(f['key']), rlit(ty_stringify(f['t'])), rlit(f['ident']), rlit(mo['name']))
 
 
-def dflt_spec(mo, f, val):
+def dflt_spec(mo, f, val, prefix='f_'):
     """`x.<field>` relation to the declared default when the entry is absent"""
     d = f['dflt']
     if d[0] == 'lit':
@@ -291,7 +291,7 @@ def dflt_spec(mo, f, val):
         return '%s == %s' % (val, d[1])
     if d[0] == 'vec2':
         names = {g['ident'] for g in mo['fields']}
-        el = [('f_' + a) if a in names else (a + d[3]) for a in (d[1], d[2])]
+        el = [(prefix + a) if a in names else (a + d[3]) for a in (d[1], d[2])]
         return '%s@ == seq![%s, %s]' % (val, el[0], el[1])
     raise AssertionError
 
@@ -351,28 +351,36 @@ def struct_specs(mo):
         for k, v, _req in checks_of(mo):
             base += '.insert(%s, nm(%s))' % (slit(k), slit(v))
         out.append('pub open spec fn %s_base%s(x: %s) -> DMap {\n    %s\n}' % (p, gW, M, base))
+        # the model is built entry by entry (`<p>_dict_<i>` = the first i declared entries on top of the base): the R1 step
+        # assertions injected into to_dict name these prefixes, which keeps the proof linear in the number of entries
         direct = [f for f in F if not f['indirect']]
-        expr = '%s_base(x)' % p
-        for f in direct:
-            expr = 'put(%s,\n        %s, x.%s.writes())' % (expr, slit(f['key']), f['ident'])
-        if not mo['indirect']:
-            out.append('pub open spec fn %s_dict%s(x: %s) -> DMap {\n    %s\n}' % (p, gW, M, expr))
-        else:
-            out.append('// every entry but the `indirect` ones\npub open spec fn %s_rest%s(x: %s) -> DMap {\n    %s\n}' % (p, gW, M, expr))
-            rem = 'd' + ''.join('.remove(%s)' % slit(f['key']) for f in mo['indirect'])
-            cl = ['    &&& %s =~= %s_rest(x)%s' % (rem, p, ''.join('.remove(%s)' % slit(f['key']) for f in mo['indirect']))]
+        fin = '%s_dict' % p if not mo['indirect'] else '%s_rest' % p
+        prev = '%s_base(x)' % p
+        if mo['indirect']:
+            out.append('// `<p>_rest`: every entry but the `indirect` ones')
+        for i, f in enumerate(direct):
+            nm_ = fin if i == len(direct) - 1 else '%s_%d' % (fin, i + 1)
+            out.append('pub open spec fn %s%s(x: %s) -> DMap { put(%s, %s, x.%s.writes()) }' % (nm_, gW, M, prev, slit(f['key']), f['ident']))
+            prev = nm_ + '(x)'
+        if not direct:
+            out.append('pub open spec fn %s%s(x: %s) -> DMap { %s }' % (fin, gW, M, prev))
+        if mo['indirect']:
             for f in mo['indirect']:
                 k = slit(f['key'])
-                cl.append('''    &&& match x.%s.writes() {
-            Primitive::Null => (d.dom().contains(%s) <==> %s_rest(x).dom().contains(%s)) && (d.dom().contains(%s) ==> d[%s] == %s_rest(x)[%s]),
-            Primitive::Reference(rf) => d.dom().contains(%s) && d[%s] == Primitive::Reference(rf),
-            p__ => d.dom().contains(%s) && (d[%s] matches Primitive::Reference(rf)
-                    && !c0.dom().contains(rf) && c1.dom().contains(rf) && c1[rf] == p__),
-        }''' % (f['ident'], k, p, k, k, k, p, k, k, k, k, k))
+                out.append('// an `indirect` entry: the field\'s primitive form is stored as a new object through the Updater and the entry\n'
+                           '// holds the reference to it (unless the form already is a reference; a Null form writes no entry)\n'
+                           'pub open spec fn %s_ind_%s%s(x: %s, d: DMap, c0: Map<PlainRef, Primitive>, c1: Map<PlainRef, Primitive>) -> bool {\n'
+                           '    match x.%s.writes() {\n'
+                           '        Primitive::Null => (d.dom().contains(%s) <==> %s_base(x).dom().contains(%s)) && (d.dom().contains(%s) ==> d[%s] == %s_base(x)[%s]),\n'
+                           '        Primitive::Reference(rf) => d.dom().contains(%s) && d[%s] == Primitive::Reference(rf),\n'
+                           '        p__ => d.dom().contains(%s) && (d[%s] matches Primitive::Reference(rf)\n'
+                           '                && !c0.dom().contains(rf) && c1.dom().contains(rf) && c1[rf] == p__),\n'
+                           '    }\n}' % (p, f['ident'], gW, M, f['ident'], k, p, k, k, k, p, k, k, k, k, k))
+            rm = ''.join('.remove(%s)' % slit(f['key']) for f in mo['indirect'])
+            cl = ['    &&& d%s =~= %s_rest(x)%s' % (rm, p, rm)]
+            cl += ['    &&& %s_ind_%s(x, d, c0, c1)' % (p, f['ident']) for f in mo['indirect']]
             cl.append('    &&& submap(c0, c1)')
-            out.append('// an `indirect` entry: the field\'s primitive form is stored as a new object through the Updater and the entry\n'
-                       '// holds the reference to it (unless the form already is a reference; a Null form writes no entry)\n'
-                       'pub open spec fn %s_written%s(x: %s, d: DMap, c0: Map<PlainRef, Primitive>, c1: Map<PlainRef, Primitive>) -> bool {\n%s\n}'
+            out.append('pub open spec fn %s_written%s(x: %s, d: DMap, c0: Map<PlainRef, Primitive>, c1: Map<PlainRef, Primitive>) -> bool {\n%s\n}'
                        % (p, gW, M, '\n'.join(cl)))
     return '\n'.join(out)
 
@@ -628,10 +636,26 @@ PUBFN = {'where': 'sig', 'rule': 'R2', 'regex': r'\Afn ', 'replace': 'pub fn '}
 VEC2 = {'rule': 'R7', 'count': '*',
         'regex': r'::alloc::boxed::box_assume_init_into_vec_unsafe\(::alloc::intrinsics::write_box_via_move\(::alloc::boxed::Box::new_uninit\(\),\s*\[([^,\[\]]+),\s*([^,\[\]]+)\]\)\)',
         'replace': r'hoist_vec2(\1, \2)'}
-# R1 (models with an `indirect` entry): the frame fact after every field writer call; '*' so that a writer that lost the
-# calls still reaches the verifier
-FRAME = {'rule': 'R1', 'count': '*', 'regex': r'(dict\.insert\("[^"]+",\s*val2\);)',
-         'replace': r'proof { assert(submap(old(updater).created(), updater.created())); } \1'}
+
+
+def step(anchor, fact, label, before=False):
+    """R1: a labelled ghost assertion after (or before) the anchored statement: one step of the model; '*' so that a derive
+    that lost the statement still reaches the verifier (the postcondition) instead of stopping at the anchor"""
+    a = 'proof { assert(' + fact.replace('\\', '\\\\') + '); //@L ' + label + '\n }'
+    return {'rule': 'R1', 'count': '*', 'regex': '(' + anchor + ')', 'replace': (a + r' \1') if before else (r'\1 ' + a)}
+
+
+def wstep(key, facts):
+    # after the block that writes entry `key`
+    return [step(r'dict\.insert\("%s",\s*val2\);\s*\}' % key, f, 'wr_model') for f in facts]
+
+
+def rstep(nxt, fact):
+    # before the statement that follows the field's `let`: the next field's `let` or the final constructor
+    return step(nxt, fact, 'rd_model', before=True)
+
+
+D0 = 'let ghost d0__ = dict@;'
 
 
 def impl_hdr(trait, ty, bound):
@@ -642,7 +666,7 @@ def impl_hdr(trait, ty, bound):
 def from_dict(ty, mod, keys, ensures, extra=()):
     return {'kind': 'fn', 'file': X, 'container': mod + [impl_hdr('FromDict', ty, 'Object')], 'name': 'from_dict',
             'props': RD, 'ensures': ensures,
-            'rewrites': [PUBFN, body_start(lits(*keys)), MAP_ERR, MISSING] + list(extra)}
+            'rewrites': [PUBFN, body_start(lits(*keys) + ' ' + D0), MAP_ERR, MISSING] + list(extra)}
 
 
 def to_dict(ty, mod, keys, ensures, extra=()):
@@ -711,20 +735,50 @@ def unit_py(uname, models, decl_only):
             tf = TF(mo)
             p = mo['p']
             if mo['reader']:
-                extra = 'extra=[VEC2]' if any(f['default'] is not None and f['dflt'][0] == 'vec2' for f in mo['fields']) else ''
-                items.append("  '%s::from_dict': from_dict(%r, %r, %r, [\n      ('rd_model', '%s_read%s(dict@, resolve.store(), r)')]%s),"
-                             % (n, n, mod, keys, p, tf, (', ' + extra) if extra else ''))
+                ex = ['VEC2'] if any(f['default'] is not None and f['dflt'][0] == 'vec2' for f in mo['fields']) else []
+                # R1 step assertions: what field i was read as, in terms of the ORIGINAL dictionary d0__
+                order = [f for f in mo['members'] if not f['skip']]
+                for i, f in enumerate(order):
+                    if f['other']:
+                        continue
+                    nxt = (r'\\blet\\s+%s\\s*=' % order[i + 1]['ident']) if i + 1 < len(order) else (r'\\bOk\\(%s\\s*\\{' % n)
+                    call = rd_call(mo, f).replace('(m, ', '(d0__, ', 1)
+                    assert call.endswith(', st)')
+                    call = call[:-len('st)')] + 'resolve.store())'
+                    if f['default'] is None:
+                        fact = '%s == Ok::<%s, PdfError>(%s)' % (call, ty_rust(f['t']), f['ident'])
+                    else:
+                        fact = '%s matches Ok(o__) && (match o__ { Some(v__) => %s == v__, None => %s })' % (call, f['ident'], dflt_spec(mo, f, f['ident'], prefix=''))
+                    ex.append('rstep(r"%s", %r)' % (nxt.replace('\\\\', '\\'), fact))
+                items.append("  '%s::from_dict': from_dict(%r, %r, %r, [\n      ('rd_model', '%s_read%s(dict@, resolve.store(), r)')], extra=[\n      %s]),"
+                             % (n, n, mod, keys, p, tf, ',\n      '.join(ex)))
             if mo['writer']:
                 F = mo['fields']
                 wf = ' || '.join('self.%s.wfail()' % f['ident'] for f in F)
+                direct = [f for f in F if not f['indirect']]
+                steps = []
                 if not mo['indirect']:
                     ens = [('wr_ok', ('r is Err ==> ' + wf) if F else 'r is Ok'),
                            ('wr_model', 'r matches Ok(d) ==> d@ =~= %s_dict%s(*self)' % (p, tf))]
-                    extra = ''
+                    for i, f in enumerate(direct):
+                        nm_ = '%s_dict' % p if i == len(direct) - 1 else '%s_dict_%d' % (p, i + 1)
+                        steps.append('wstep(%r, [%r])' % (f['key'], 'dict@ =~= %s(*self)' % nm_))
                 else:
                     ens = [('wr_model', 'r matches Ok(d) ==> %s_written%s(*self, d@, old(updater).created(), final(updater).created())' % (p, tf)),
                            ('wr_frame', 'submap(old(updater).created(), final(updater).created())')]
-                    extra = ', extra=[FRAME]'
+                    rm = ''.join('.remove(%s)' % slit(f['key']) for f in mo['indirect'])
+                    nd, seen = 0, []
+                    for f in F:
+                        if f['indirect']:
+                            seen.append(f)
+                        else:
+                            nd += 1
+                        nm_ = ('%s_rest' % p if nd == len(direct) else '%s_rest_%d' % (p, nd)) if nd else '%s_base' % p
+                        facts = ['submap(old(updater).created(), updater.created())',
+                                 'dict@%s =~= %s(*self)%s' % (rm, nm_, rm)]
+                        facts += ['%s_ind_%s(*self, dict@, old(updater).created(), updater.created())' % (p, g['ident']) for g in seen]
+                        steps.append('wstep(%r, %r)' % (f['key'], facts))
+                extra = (', extra=' + ' + '.join(steps)) if steps else ''
                 items.append("  '%s::to_dict': to_dict(%r, %r, %r, %r%s)," % (n, n, mod, keys, ens, extra))
         else:
             nd = len(mo['members']) if mo['ekind'] == 'int' else 0
